@@ -20,6 +20,7 @@ along with evo.  If not, see <http://www.gnu.org/licenses/>.
 
 import json
 import logging
+import os
 import typing
 from pathlib import Path
 
@@ -84,8 +85,20 @@ def merge_dicts(first: dict, second: dict, soft: bool = False) -> dict:
 
 
 def write_to_json_file(json_path: Path, dictionary: dict) -> None:
-    with open(json_path, 'w') as json_file:
-        json_file.write(json.dumps(dictionary, indent=4, sort_keys=True))
+    # Write to a temporary file and atomically replace the destination,
+    # so that the destination is never empty or partially written, e.g.
+    # if the process dies or if another process reads it at the same time.
+    json_path = Path(os.path.realpath(json_path))
+    tmp_path = json_path.with_name("{}.{}.tmp".format(json_path.name,
+                                                      os.getpid()))
+    try:
+        with open(tmp_path, 'w') as json_file:
+            json_file.write(json.dumps(dictionary, indent=4, sort_keys=True))
+        os.replace(tmp_path, json_path)
+    except BaseException:
+        if tmp_path.exists():
+            tmp_path.unlink()
+        raise
 
 
 def reset(destination: Path = DEFAULT_PATH,
@@ -108,7 +121,8 @@ def initialize_if_needed() -> None:
     (or if it was deleted).
     """
     if not USER_ASSETS_PATH.exists():
-        USER_ASSETS_PATH.mkdir()
+        # Another process might create it at the same time.
+        USER_ASSETS_PATH.mkdir(exist_ok=True)
 
     if not USER_ASSETS_VERSION_PATH.exists():
         open(USER_ASSETS_VERSION_PATH, 'w').write(__version__)
